@@ -301,7 +301,7 @@ pub const NAMES: &[&str] = &[
     "probe_err_in_first_and_later_slot", "probe_err_only_in_last_slot", "probe_none_only_in_last_slot",
     "probe_none_only_in_first_slot", "probe_all_none_free", "probe_all_ok_err_free", "probe_transform_after_writes",
     "probe_clone_then_diverge", "probe_eq_true", "probe_eq_false", "probe_multiple_err_planted", "op_eq_probe",
-    "probe_planted_beyond_slot_64", "op_clone_from",
+    "probe_planted_beyond_slot_64", "op_clone_from", "probe_table_of_another_enum_touched_in_between", "probe_nested_transform",
 ];
 const F_DISABLED: usize = 18;
 const F_NONE: usize = 19;
@@ -324,6 +324,8 @@ const P_MULTI_ERR: usize = 35;
 const OP_EQ_PROBE: usize = 36;
 const P_BEYOND_64: usize = 37;
 const OP_CLONE_FROM: usize = 38;
+const P_FOREIGN: usize = 39;
+const P_NESTED_TRANSFORM: usize = 40;
 
 pub struct Failure {
     pub oracle: &'static str,
@@ -417,6 +419,15 @@ impl<'a> Exec<'a> {
             slots.push(s0);
             r?;
         }
+        // a table of another enum (the next case of the corpus), touched before reads and writes whose raw key is even
+        let mut foreign: Option<(Box<dyn Tab>, usize)> = ALL_CASES.get().and_then(|cs| {
+            let i = cs.iter().position(|c| c.name == self.case.name)?;
+            let fc = &cs[(i + 1) % cs.len()];
+            if cs.len() < 2 || fc.n == 0 {
+                return None;
+            }
+            catch(|| fc.factory.filled(Val(5))).ok().map(|t| (t, fc.n))
+        });
         for (si, op) in ops.iter().enumerate() {
             let step = si + 1;
             self.steps += 1;
@@ -488,12 +499,27 @@ impl<'a> Exec<'a> {
                     let i = hh(*h);
                     let s = &slots[i];
                     let salt = *salt;
+                    // one transform in five is NESTED: at one key the closure itself transforms the same table and uses
+                    // the nested result for that key (still a function of its arguments)
+                    let nested_at = if salt % 5 == 0 && n > 0 { Some((salt as usize / 5) % n) } else { None };
                     let real = catch(|| s.real.transform(&|k, old| match k {
+                        KeyPos::Enabled(p) if Some(p) == nested_at => {
+                            let inner = s.real.transform(&|k2, o2| match k2 {
+                                KeyPos::Enabled(p2) => g_fn(salt + 1, p2, o2),
+                                KeyPos::Disabled(d) => panic!("closure was handed disabled key #{}", d),
+                            });
+                            g_fn(salt, p, &inner.get(p))
+                        }
                         KeyPos::Enabled(p) => g_fn(salt, p, old),
                         KeyPos::Disabled(d) => panic!("closure was handed disabled key #{}", d),
                     }))
                     .map_err(|m| fail("panic", "no panic (the closure is defined on every enabled key)".into(), m))?;
-                    let model: Vec<Val> = s.model.iter().enumerate().map(|(p, old)| g_fn(salt, p, old)).collect();
+                    let model: Vec<Val> = s.model.iter().enumerate().map(|(p, old)| if Some(p) == nested_at { g_fn(salt, p, &g_fn(salt + 1, p, old)) } else { g_fn(salt, p, old) }).collect();
+                    if nested_at.is_some() {
+                        if let Some(st) = stats.as_deref_mut() {
+                            st.hit(P_NESTED_TRANSFORM);
+                        }
+                    }
                     if let Some(st) = stats.as_deref_mut() {
                         if s.writes > 0 {
                             st.hit(P_TRANSFORM_AFTER_WRITES);
@@ -535,6 +561,15 @@ impl<'a> Exec<'a> {
                 Op::Set(h, p, v) | Op::Modify(h, p, v) | Op::Replace(h, p, v) => {
                     if n > 0 {
                         let i = hh(*h);
+                        if *p % 2 == 0 {
+                            if let Some((ft, fnn)) = foreign.as_mut() {
+                                let fp = (*p / 2) % *fnn;
+                                let _ = catch(|| ft.set(fp, Val(*v)));
+                                if let Some(st) = stats.as_deref_mut() {
+                                    st.hit(P_FOREIGN);
+                                }
+                            }
+                        }
                         let p = *p % n;
                         let s = &mut slots[i];
                         if let Some(st) = stats.as_deref_mut() {
@@ -568,6 +603,15 @@ impl<'a> Exec<'a> {
                 Op::Get(h, p) => {
                     if n > 0 {
                         let i = hh(*h);
+                        if *p % 2 == 0 {
+                            if let Some((ft, fnn)) = foreign.as_ref() {
+                                let fp = (*p / 2) % *fnn;
+                                let _ = catch(|| ft.get(fp));
+                                if let Some(st) = stats.as_deref_mut() {
+                                    st.hit(P_FOREIGN);
+                                }
+                            }
+                        }
                         let p = *p % n;
                         let s = &slots[i];
                         let got = catch(|| s.real.get(p)).map_err(|m| fail("panic", "no panic".into(), m))?;
@@ -966,7 +1010,12 @@ fn minimise(case: &Case, ops: Vec<Op>, sig: &str) -> Vec<Op> {
     ddmin(ops, |c| same(c))
 }
 
+/// every case of the corpus this binary was built with: a run also touches a table of the NEXT case's enum between its
+/// own operations (two table types in use on one thread must not influence each other)
+pub static ALL_CASES: std::sync::OnceLock<&'static [Case]> = std::sync::OnceLock::new();
+
 pub fn main(cases: &'static [Case]) -> ! {
+    let _ = ALL_CASES.set(cases);
     let cli = parse_cli();
     quiet_panics();
     println!("sim_c10 seed={} profile={} corpus={} cases={} tier={}", cli.seed, PROFILE, cli.corpus_tag, cases.len(), cli.tier);
